@@ -226,4 +226,132 @@ def visible (s : St) :=
 exactly what a newly constructed `Irc` has. -/
 theorem reset_fresh (cfg : Cfg) (s base : St) : visible (ircReset cfg s) = visible (initSt cfg base) := rfl
 
+/-! ### epoch_clean: nothing computed from connection n's input is sent on connection n+1
+
+With the real SocketDriver a new socket is opened (a) by the driver's own scheduled reconnect, or (b) at
+once, from inside a handler, by `driver.reconnect()` without `wait` — which only `Irc.doError` does
+("closing link").  In both cases `Irc.reset()` runs immediately before the connect and nothing touches
+the Irc object in between, so the object that talks on the new socket is a fresh one, with exactly the
+connect messages queued; `_read` then drops the rest of the old chunk (`feedLines_stops`) and
+`_sendIfMsgs` writes the queue to the new socket (`flush_wire`). -/
+
+theorem visible_drvConnect (cfg : Cfg) (srv : Option Server) (s : St) : visible (drvConnect cfg srv s) = visible s := by
+  unfold drvConnect
+  cases srv with
+  | some x => rfl
+  | none =>
+    simp only
+    cases h : getNextServer cfg s with
+    | none => rfl
+    | some p =>
+      obtain ⟨x, s'⟩ := p
+      simp only
+      show visible s' = visible s
+      unfold getNextServer at h
+      split at h
+      · cases h
+      · unfold applyStsPolicy at h
+        split at h
+        · injection h with h; injection h with _ h; subst h; rfl
+        · split at h
+          · split at h <;> (injection h with h; injection h with _ h; subst h; rfl)
+          · cases h
+
+/-- (a) the scheduled reconnect: the Irc object is fresh when the new socket is opened -/
+theorem epoch_clean_scheduled (cfg : Cfg) (srv : Option Server) (s base : St) :
+    visible (realReconnect cfg false srv s) = visible (initSt cfg base) := by
+  unfold realReconnect
+  simp only [Bool.false_eq_true, if_false]
+  rw [visible_drvConnect]; rfl
+
+/-- only the handling of `ERROR` opens a socket in the middle of a message -/
+theorem new_socket_only_by_error (cfg : Cfg) (s : St) (m : Msg)
+    (h : (feedMsg cfg m s).st.drv.sock ≠ s.drv.sock) : dispatch m = .error := by
+  by_cases hk : handlerKinds (dispatch m) .connPerm = true
+  · revert hk; cases dispatch m <;> simp [handlerKinds]
+  · exact absurd (sock_moves (by simpa using hk) (ref_feedMsg (cfg := cfg) m s)) h
+
+theorem nickSetter_sock (m : Msg) (s : St) : (nickSetter m s).st.drv.sock = s.drv.sock := by
+  unfold nickSetter; split
+  · split <;> rfl
+  · rfl
+
+theorem drvReconnect_wait_sock (cfg : Cfg) (srv : Option Server) (s : St) :
+    (drvReconnect cfg true srv s).drv.sock = s.drv.sock := by
+  unfold drvReconnect
+  split
+  · have hr : ∀ t : St, (ircReset cfg t).drv = t.drv := by
+      intro t; unfold ircReset queueConnectMessages transition clearForReset resetSasl
+      simp only; split <;> rfl
+    simp only [realReconnect, if_true, drvSchedule, hr, drvDisconnect]
+    split <;> rfl
+  · rfl
+
+theorem doError_cases (cfg : Cfg) (args : List Str) (s : St) :
+    (doError cfg args s).st = s ∨ (doError cfg args s).st = drvReconnect cfg true none s ∨
+    (doError cfg args s).st = drvReconnect cfg false none s := by
+  unfold doError
+  split
+  · exact .inl rfl
+  · split
+    · exact .inr (.inr rfl)
+    · split
+      · exact .inr (.inl rfl)
+      · exact .inl rfl
+
+theorem feedMsg_error_st (cfg : Cfg) (s : St) (m : Msg) (hd : dispatch m = .error) :
+    (feedMsg cfg m s).st = (nickSetter m s).st ∨
+    (feedMsg cfg m s).st = (doError cfg m.args (nickSetter m s).st).st := by
+  have hcb : ∀ t : St, callbacks cfg m t = t := by
+    intro t; unfold callbacks; rw [hd]; simp
+  have hrun : ∀ t : St, runHandler cfg m t = doError cfg m.args t := by
+    intro t; unfold runHandler; rw [hd]
+  unfold feedMsg R.bind
+  cases (nickSetter m s).exc with
+  | some e => exact .inl rfl
+  | none =>
+    simp only [hrun]
+    cases (doError cfg m.args (nickSetter m s).st).exc with
+    | some e => exact .inr rfl
+    | none => right; simp only [ok, hcb]
+
+/-- (b) epoch_clean: whenever the handling of a server message opens a new socket, every CAP/SASL/FSM/nick
+field and both queues of the Irc object are those of a newly constructed `Irc` — only the connect
+messages are waiting for the new connection.  For every state, configuration and message. -/
+theorem epoch_clean (cfg : Cfg) (s base : St) (m : Msg) (h : (feedMsg cfg m s).st.drv.sock ≠ s.drv.sock) :
+    visible (feedMsg cfg m s).st = visible (initSt cfg base) := by
+  have hd := new_socket_only_by_error cfg s m h
+  rcases feedMsg_error_st cfg s m hd with he | he
+  · rw [he] at h; exact absurd (nickSetter_sock m s) h
+  · rw [he] at h ⊢
+    rcases doError_cases cfg m.args (nickSetter m s).st with hc | hc | hc
+    · rw [hc] at h; exact absurd (nickSetter_sock m s) h
+    · rw [hc, drvReconnect_wait_sock] at h; exact absurd (nickSetter_sock m s) h
+    · rw [hc] at h ⊢
+      unfold drvReconnect at h ⊢
+      split
+      · exact epoch_clean_scheduled cfg none _ base
+      · rename_i hr
+        rw [if_neg hr] at h
+        exact absurd (nickSetter_sock m s) h
+
+/-- `ERROR :Closing link` on the real driver -/
+def exErr : Msg := ⟨sERROR, ["Closing link: bye".toList], []⟩
+def exReal : Cfg := { exCfg with realDriver := true, servers := [⟨"h".toList, 6667, none, false⟩] }
+def exD0 : St := drvStart exReal (initSt exReal {})
+def exD1 : St := (step exReal (drain exD0) exLs).st
+example : (feedMsg exReal exErr exD1).st.drv.sock ≠ exD1.drv.sock ∧ exD1.req ≠ [] := by decide
+
+/-- `_read` stops feeding the chunk as soon as a handler made the driver leave the connection -/
+theorem feedLines_stops (cfg : Cfg) (m : Msg) (ms : List Msg) (s : St)
+    (h : (feedMsg cfg m s).st.drv.sock ≠ s.drv.sock ∨ (feedMsg cfg m s).st.drv.connected = false) :
+    feedLines cfg (m :: ms) s = (feedMsg cfg m s).st := by
+  simp only [feedLines]
+  rw [if_pos h]
+
+/-- `_sendIfMsgs`: everything queued goes to the current socket, in order; nothing when not connected -/
+theorem flush_wire (s : St) (h : s.drv.connected = true) :
+    (flush s).wire = s.wire ++ (s.fastq ++ s.slowq).map (fun o => (s.drv.sock, o)) ∧ (flush s).fastq = [] ∧ (flush s).slowq = [] := by
+  simp [flush, h]
+
 end C08
